@@ -8,4 +8,5 @@ let table : (string * (z list -> z list)) list = [
   ("codec", run_codec);
   ("engine", run_engine);
   ("regex", run_regex);
+  ("source", run_source);
 ]
